@@ -150,7 +150,7 @@ func TestC12_backlog(t *testing.T) {
 	kit.Check(t, kit.Prop[c02Case]{
 		ID: "C12", Quick: 4000, Thor: 400_000,
 		Rule: "queue limiter (all constructors, pools) x event sequences on a virtual clock; at every quiescent point queue_size gauge == backlog length == callers blocked <= bound, queue_limit gauge == bound, a caller arriving at a full backlog is answered at the same instant; non-trivial = an arrival at a full backlog plus a hand-off and a give-up in one case",
-		Gen:  genC12(false), Run: runC12,
+		Gen:  genC12(false), Run: runC12, Timeout: 30 * time.Second,
 	})
 }
 
@@ -159,6 +159,6 @@ func TestC12_sched_Coop(t *testing.T) {
 	kit.Check(t, kit.Prop[c02Case]{
 		ID: "C12", Quick: 2500, Thor: 250_000,
 		Rule: "as TestC12_backlog under generated cooperative schedules (yields at queue.beforePush / queue.pushed / queue.giveup / queue.unblock.acquired and around the injected delegate)",
-		Gen:  genC12(true), Run: runC12,
+		Gen:  genC12(true), Run: runC12, Timeout: 30 * time.Second,
 	})
 }
